@@ -4,3 +4,4 @@ import AgdbCodec.Props.C20
 #print axioms AgdbCodec.C20_roundtrip_and_size
 #print axioms AgdbCodec.C20_decoded_size
 #print axioms AgdbCodec.C20_dbKeyValue_roundtrip
+#print axioms AgdbCodec.C20_path_lossy_counterexample
